@@ -47,3 +47,191 @@ impl DecodeAttributeValue for ErrorCode {
 }
 } // mod vx_error_code_attr
 pub use vx_error_code_attr::ErrorCode as ErrorCodeAttr;
+
+// ---------------------------------------------------------------- USERHASH (RFC 8489 14.4): 32 bytes (SHA-256 of "user:realm")
+//@consts stun_rs :: mod attributes > mod stun > mod user_hash
+//@item! stun_rs :: mod attributes > mod stun > mod user_hash > struct UserHash
+impl StunAttributeType for UserHash {
+    open spec fn spec_type() -> u16 { 0x001E }
+//@item stun_rs :: mod attributes > mod stun > mod user_hash > impl crate::attributes::StunAttributeType for UserHash > fn get_type
+//@tags C02 C01
+//@end
+//@item stun_rs :: mod attributes > mod stun > mod user_hash > impl crate::attributes::StunAttributeType for UserHash > fn attribute_type
+//@tags C02 C01
+//@end
+}
+pub open spec fn vx_arc_arr32(s: Seq<u8>) -> Arc<[u8; 32]> { choose|a: Arc<[u8; 32]>| a@ == s }
+#[verifier::external_body]
+pub proof fn axiom_arc_arr32_ext(a: Arc<[u8; 32]>, b: Arc<[u8; 32]>)
+    ensures a@ == b@ ==> a == b,
+{}
+impl UserHash {
+//@item stun_rs :: mod attributes > mod stun > mod user_hash > impl UserHash > fn hash
+//@tags C19
+//@spec
+    ensures r@ == self.0@,
+//@end
+}
+impl EncodeAttributeValue for UserHash {
+    open spec fn wire(&self, enc: Seq<u8>) -> Seq<u8> { self.0@ }
+    open spec fn encodable(&self, enc: Seq<u8>) -> bool { true }
+//@item stun_rs :: mod attributes > mod stun > mod user_hash > impl EncodeAttributeValue for UserHash > fn encode
+//@tags C01 C02 C14
+//@rules R5P
+//@stmt "Ok(len)"
+    proof { assert(raw_value@.subrange(0, len as int) =~= self.0@); }
+//@end
+}
+impl DecodeAttributeValue for UserHash {
+    open spec fn unwire(raw: Seq<u8>, prefix: Seq<u8>) -> Option<Self> {
+        if raw.len() == 32 { Some(UserHash(vx_arc_arr32(raw))) } else { None }
+    }
+//@item stun_rs :: mod attributes > mod stun > mod user_hash > impl DecodeAttributeValue for UserHash > fn decode
+//@tags C01 C02 C03 C19
+//@closure 1
+|| -> (t: (Self, usize))
+    requires raw_value@.len() == 32,
+    ensures t.0.0@ == raw_value@ && t.1 == 32,
+//@before "(Self(Arc::new(vec)), raw_value.len())"
+    proof { assert(vec@ =~= raw_value@); }
+//@tail
+    proof { assert forall|a: Arc<[u8; 32]>| #[trigger] a@ == ctx.raw_value@ implies a == vx_arc_arr32(ctx.raw_value@) by { axiom_arc_arr32_ext(a, vx_arc_arr32(ctx.raw_value@)); } }
+//@end
+}
+// props: C01 C02
+proof fn lemma_roundtrip_UserHash(x: UserHash, enc: Seq<u8>)
+    ensures UserHash::unwire(x.wire(enc), enc) == Some(x),
+{
+    axiom_arc_arr32_ext(x.0, vx_arc_arr32(x.0@));
+}
+
+// ---------------------------------------------------------------- UNKNOWN-ATTRIBUTES (RFC 8489 14.10): list of 16-bit attribute types
+// (the no-duplicates invariant established by `add` is carried as `no_dups(list)`: a Verus type invariant cannot be used
+// because `Arc::make_mut(&mut self.attrs).push(..)` mutates the field through a returned reference)
+pub open spec fn ua_add(s: Seq<u16>, v: u16) -> Seq<u16> { if s.contains(v) { s } else { s.push(v) } }
+pub open spec fn ua_fold(vals: Seq<u16>, k: int) -> Seq<u16>
+    decreases k
+{
+    if k <= 0 { Seq::empty() } else { ua_add(ua_fold(vals, k - 1), vals[k - 1]) }
+}
+pub open spec fn ua_vals(raw: Seq<u8>) -> Seq<u16> { Seq::new(raw.len() / 2, |k: int| be16(raw.subrange(2 * k, 2 * k + 2)) as u16) }
+pub open spec fn ua_wire(list: Seq<u16>) -> Seq<u8> { Seq::new(2 * list.len(), |j: int| be16_seq(list[j / 2] as int)[j % 2]) }
+pub open spec fn no_dups(s: Seq<u16>) -> bool { forall|i: int, j: int| 0 <= i < j < s.len() ==> s[i] != s[j] }
+pub mod vx_unknown_attributes {
+    use super::*;
+//@consts stun_rs :: mod attributes > mod stun > mod unknown_attributes
+//@item stun_rs :: mod attributes > mod stun > mod unknown_attributes > struct UnknownAttributes
+//@rules KEEPPRIV
+//@end
+impl StunAttributeType for UnknownAttributes {
+    open spec fn spec_type() -> u16 { 0x000A }
+//@item stun_rs :: mod attributes > mod stun > mod unknown_attributes > impl crate::attributes::StunAttributeType for UnknownAttributes > fn get_type
+//@tags C02 C01
+//@end
+//@item stun_rs :: mod attributes > mod stun > mod unknown_attributes > impl crate::attributes::StunAttributeType for UnknownAttributes > fn attribute_type
+//@tags C02 C01
+//@end
+}
+impl Default for UnknownAttributes {
+//@item stun_rs :: mod attributes > mod stun > mod unknown_attributes > impl ::core::default::Default for UnknownAttributes > fn default
+//@tags C19
+//@spec
+    ensures r.list() == Seq::<u16>::empty(),
+//@end
+}
+impl UnknownAttributes {
+    pub closed spec fn list(self) -> Seq<u16> { self.attrs@ }
+    pub proof fn lemma_ext(a: Self, b: Self) requires a.list() == b.list() ensures a == b { axiom_arc_vec16_ext(a.attrs, b.attrs); }
+//@item stun_rs :: mod attributes > mod stun > mod unknown_attributes > impl UnknownAttributes > fn add
+//@tags C19 C01
+//@sub "Arc::make_mut(" => "vx_arc_make_mut("
+//@spec
+    // never panics (also on a clone: copy-on-write), keeps the list duplicate-free and in first-insertion order
+    ensures final(self).list() == ua_add(old(self).list(), value), no_dups(old(self).list()) ==> no_dups(final(self).list()),
+//@before "vx_arc_make_mut("
+    proof {
+        assert(!self.attrs@.contains(value));
+        assert(no_dups(self.attrs@) ==> no_dups(self.attrs@.push(value)));
+    }
+//@end
+//@item stun_rs :: mod attributes > mod stun > mod unknown_attributes > impl UnknownAttributes > fn attributes
+//@tags C19
+//@spec
+    ensures r@ == self.list(),
+//@end
+}
+impl EncodeAttributeValue for UnknownAttributes {
+    open spec fn wire(&self, enc: Seq<u8>) -> Seq<u8> { ua_wire(self.list()) }
+    open spec fn encodable(&self, enc: Seq<u8>) -> bool { true }
+//@item stun_rs :: mod attributes > mod stun > mod unknown_attributes > impl EncodeAttributeValue for UnknownAttributes > fn encode
+//@tags C01 C02 C14 C03
+//@rules R5P R3F R3
+//@head
+    proof { axiom_vec16_len_limit(&*self.attrs); }
+    let ghost raw0 = ctx.raw_value@;
+//@loop 1
+    invariant vx_s0@ == self.attrs@, i <= vx_s0@.len(), len == 2 * vx_s0@.len(), raw_value@.len() == raw0.len(), raw_value@.len() >= len,
+        forall|j: int| 0 <= j < 2 * i ==> raw_value@[j] == ua_wire(self.attrs@)[j],
+        forall|j: int| 2 * i <= j < raw0.len() ==> raw_value@[j] == raw0[j],
+    decreases vx_s0@.len() - i,
+//@stmt "Ok(len)"
+    proof { assert(raw_value@.subrange(0, len as int) =~= ua_wire(self.attrs@)); }
+//@end
+}
+impl DecodeAttributeValue for UnknownAttributes {
+    // duplicates on the wire collapse (a set in first-occurrence order)
+    open spec fn unwire(raw: Seq<u8>, prefix: Seq<u8>) -> Option<Self> {
+        if raw.len() % 2 == 0 { Some(choose|u: UnknownAttributes| u.list() == ua_fold(ua_vals(raw), raw.len() as int / 2)) } else { None }
+    }
+//@item stun_rs :: mod attributes > mod stun > mod unknown_attributes > impl DecodeAttributeValue for UnknownAttributes > fn decode
+//@tags C01 C02 C03 C19
+//@before "if raw_value.len() & 1 != 0"
+    proof { let n = raw_value.len(); assert((n & 1 != 0) == (n % 2 != 0)) by (bit_vector); }
+//@loop 1
+    invariant raw_value@ == ctx.raw_value@, raw_value@.len() % 2 == 0,
+        unknown_attr.list() == ua_fold(ua_vals(raw_value@), i as int), no_dups(unknown_attr.list()),
+//@loopstart 1
+    proof { assert(raw_value@.subrange(i * 2, raw_value@.len() as int).subrange(0, 2) =~= raw_value@.subrange(2 * i, 2 * i + 2)); }
+//@stmt "Ok((unknown_attr, raw_value.len()))"
+    proof {
+        let u1 = choose|u: UnknownAttributes| u.list() == ua_fold(ua_vals(ctx.raw_value@), ctx.raw_value@.len() as int / 2);
+        UnknownAttributes::lemma_ext(unknown_attr, u1);
+    }
+//@end
+}
+pub proof fn lemma_ua_fold_nodup(l: Seq<u16>, k: int)
+    requires no_dups(l), 0 <= k <= l.len(),
+    ensures ua_fold(l, k) == l.subrange(0, k),
+    decreases k,
+{
+    if k > 0 {
+        lemma_ua_fold_nodup(l, k - 1);
+        let p = l.subrange(0, k - 1);
+        assert(!p.contains(l[k - 1])) by {
+            if p.contains(l[k - 1]) { let i = choose|i: int| 0 <= i < p.len() && p[i] == l[k - 1]; assert(l[i] == l[k - 1]); }
+        }
+        assert(p.push(l[k - 1]) =~= l.subrange(0, k));
+    } else {
+        assert(l.subrange(0, 0) =~= Seq::<u16>::empty());
+    }
+}
+// props: C01 C02
+pub proof fn lemma_roundtrip_UnknownAttributes(x: UnknownAttributes, enc: Seq<u8>)
+    requires no_dups(x.list()),
+    ensures UnknownAttributes::unwire(x.wire(enc), enc) == Some(x),
+{
+    let l = x.list();
+    let raw = ua_wire(l);
+    assert(ua_vals(raw) =~= l) by {
+        assert forall|k: int| 0 <= k < l.len() implies ua_vals(raw)[k] == l[k] by {
+            assert(raw.subrange(2 * k, 2 * k + 2) =~= be16_seq(l[k] as int));
+            lemma_be16_roundtrip(l[k] as int);
+        }
+    }
+    lemma_ua_fold_nodup(l, l.len() as int);
+    assert(l.subrange(0, l.len() as int) =~= l);
+    let u1 = choose|u: UnknownAttributes| u.list() == ua_fold(ua_vals(raw), raw.len() as int / 2);
+    UnknownAttributes::lemma_ext(x, u1);
+}
+} // mod vx_unknown_attributes
+pub use vx_unknown_attributes::UnknownAttributes;
